@@ -204,6 +204,9 @@ def run(ctx):
                   "vote_granted is const false" if const_false else "follower-side response",
                   "a non-follower role builds a VoteResponse whose vote_granted is not constant false", loc(b, bi))
 
+    # ---------------------------------------------------------------- C01-d exact decision tables
+    _vote_tables(ctx)
+
     # ---------------------------------------------------------------- C01-e vote cleared only with a term advance
     rs = F.callers_of(lambda k: strip_generics(k).endswith("RaftRoleState::reset_voted_for"))
     rs = [x for x in rs if not strip_generics(x[0]).endswith("RaftRoleState::reset_voted_for")]
@@ -241,3 +244,114 @@ def run(ctx):
             ctx.check("C01-f", "%s#update_current_term[%d]" % (fkey(lf), n), wit is None,
                       "a leader that adopts a higher term sends BecomeFollower before returning",
                       "leader adopts a higher term and can return without stepping down", loc(mb, bi), wit and bpath(mb, wit))
+
+
+def _vote_tables(ctx):
+    F = ctx.F
+    # is_target_log_more_recent(my_index, my_term, target_index, target_term)
+    f = ctx.anchor(F.fn, "d_engine_core::is_target_log_more_recent")
+    if f:
+        paths = table_of(ctx, "C01-d", f, "is_target_log_more_recent")
+        if paths:
+            rets = [p.ret for p in paths]
+
+            def spec(w):
+                mi, mt, ti, tt = (w.int(("param", i, f.local_name(i))) for i in (1, 2, 3, 4))
+                return tt > mt or (tt == mt and ti >= mi)
+            # make sure all four parameters are quantities even if a path does not compare them
+            extra = [("bin", "Le", ("param", 1, f.local_name(1)), ("param", 3, f.local_name(3))), ("bin", "Le", ("param", 2, f.local_name(2)), ("param", 4, f.local_name(4)))] + [r for r in rets if r[0] != "const"]
+            run_table(ctx, "C01-d", "is_target_log_more_recent#table", paths, lambda p, w: w.truth(p.ret), spec, "%s:%s" % (f.file, f.line), extra_exprs=extra,
+                      what="candidate log is at least as up to date iff (term greater) or (term equal and index >= )")
+    # handle_vote_request(self, request, current_term, voted_for_option, raft_log)
+    hv = ctx.anchor(F.method, "ElectionHandler", "handle_vote_request")
+    if hv:
+        mb = F.main_body(hv)
+        paths = table_of(ctx, "C01-d", mb, "handle_vote_request")
+        if paths:
+            tb0 = pathsym.Table(paths)
+            req, cur, vfo = par(2), par(3), par(4)
+            q_rt = pick(tb0.quant, fld(req, "term"), "request.term")
+            q_ct = pick(tb0.quant, cur, "current_term")
+            q_vt = pick(tb0.quant, fld(vfo, "0", "voted_for_term"), "vote term")
+            q_vi = pick(tb0.quant, fld(vfo, "0", "voted_for_id"), "vote id")
+            q_ci = pick(tb0.quant, fld(req, "candidate_id"), "candidate id")
+            b_up = pick(tb0.bools, lambda e: e[0] == "call" and e[1].endswith("is_target_log_more_recent"), "up-to-date call")
+            v_vf = pick(list(tb0.vars), vfo, "voted_for_option")
+            missing = [n for n, x in (("request.term", q_rt), ("current_term", q_ct), ("vote.term", q_vt), ("vote.id", q_vi), ("candidate_id", q_ci), ("is_target_log_more_recent(..)", b_up), ("voted_for_option", v_vf)) if x is None]
+            known = {q_rt, q_ct, q_vt, q_vi, q_ci}
+            stray = [sym_show(q) for q in tb0.quant if q not in known] + [sym_show(b) for b in tb0.bools if b != b_up] + [sym_show(v) for v in tb0.vars if v != v_vf]
+            if missing or stray:
+                ctx.bad("C01-d", "%s#table" % fkey(hv), "UNRECOGNISED-FORM: vote decision does not depend on exactly the expected inputs (missing %s, unexpected %s)" % (missing, stray), "%s:%s" % (mb.file, mb.line))
+            else:
+                # the up-to-date call compares (my last index, my last term) with the request's
+                a = b_up[2]
+                okargs = len(a) == 4 and fld(req, "last_log_index")(a[2]) and fld(req, "last_log_term")(a[3]) and \
+                    mentions(a[0], lambda e: e[0] == "call" and e[1].endswith("last_log_id")) and mentions(a[0], lambda e: e[0] == "field" and e[2] == "index") and \
+                    mentions(a[1], lambda e: e[0] == "call" and e[1].endswith("last_log_id")) and mentions(a[1], lambda e: e[0] == "field" and e[2] == "term")
+                ctx.check("C01-d", "%s#up-to-date-args" % fkey(hv), okargs, "is_target_log_more_recent(my last index, my last term, request.last_log_index, request.last_log_term)",
+                          "arguments of the up-to-date check are not (local last index, local last term, request.last_log_index, request.last_log_term): %s" % sym_show(b_up), "%s:%s" % (mb.file, mb.line))
+
+                def outcome(p, w):
+                    su = agg_get(p.ret, "0")
+                    nv = agg_get(su, "new_voted_for")
+                    tu = agg_get(su, "term_update")
+                    g = variant_of(nv)
+                    detail = None
+                    if g == "Some":
+                        vf = agg_get(nv, "0")
+                        detail = (agg_get(vf, "voted_for_id") == q_ci, agg_get(vf, "voted_for_term") == q_rt)
+                    t = variant_of(tu)
+                    tval = (agg_get(tu, "0") == q_rt) if t == "Some" else None
+                    return (variant_of(p.ret), g, detail, t, tval)
+
+                def spec(w):
+                    rt, ct = w.int(q_rt), w.int(q_ct)
+                    voted = w.v[v_vf] == "Some" and not rt > ct      # a vote of an older term is void once the term advances
+                    same = voted and w.int(q_vt) == rt and w.int(q_vi) == w.int(q_ci)
+                    grant = rt >= ct and w.b[b_up] and (not voted or same)
+                    return ("Ok", "Some" if grant else "None", (True, True) if grant else None, "Some" if rt > ct else "None", True if rt > ct else None)
+                run_table(ctx, "C01-d", "%s#table" % fkey(hv), paths, outcome, spec, "%s:%s" % (mb.file, mb.line),
+                          what="grant iff request.term >= current_term, candidate log up to date, and no other vote in effect for that term; vote recorded = (candidate, request.term); term_update = Some(request.term) iff request.term > current_term")
+    # candidate-side legality check + could_grant
+    cg = ctx.anchor(F.method, "ElectionHandler", "if_node_could_grant_the_vote_request")
+    if cg:
+        paths = table_of(ctx, "C01-d", cg, "if_node_could_grant_the_vote_request")
+        if paths:
+            tb0 = pathsym.Table(paths)
+            req, vfo = par(2), par(3)
+            q_rt = pick(tb0.quant, fld(req, "term"), "")
+            q_vt = pick(tb0.quant, fld(vfo, "0", "voted_for_term"), "")
+            q_vi = pick(tb0.quant, fld(vfo, "0", "voted_for_id"), "")
+            v_vf = pick(list(tb0.vars), vfo, "")
+            if None in (q_rt, q_vt, q_vi, v_vf) or len(tb0.quant) != 3 or tb0.bools:
+                ctx.bad("C01-d", "%s#table" % fkey(cg), "UNRECOGNISED-FORM: inputs %s %s" % ([sym_show(q) for q in tb0.quant], [sym_show(b) for b in tb0.bools]), "%s:%s" % (cg.file, cg.line))
+            else:
+                def spec2(w):
+                    if w.v[v_vf] == "None":
+                        return True
+                    return w.int(q_vi) == 0 or w.int(q_vt) < w.int(q_rt)
+                run_table(ctx, "C01-d", "%s#table" % fkey(cg), paths, lambda p, w: w.truth(p.ret), spec2, "%s:%s" % (cg.file, cg.line),
+                          what="a candidate may defer to a vote request only if it has no vote, a null vote, or a vote of an older term")
+    cl = ctx.anchor(F.method, "ElectionHandler", "check_vote_request_is_legal")
+    if cl:
+        paths = table_of(ctx, "C01-d", cl, "check_vote_request_is_legal")
+        if paths:
+            tb0 = pathsym.Table(paths)
+            req, cur, vfo = par(2), par(3), par(6)
+            q_rt = pick(tb0.quant, fld(req, "term"), "")
+            q_ct = pick(tb0.quant, cur, "")
+            b_up = pick(tb0.bools, lambda e: e[0] == "call" and e[1].endswith("is_target_log_more_recent"), "")
+            b_cg = pick(tb0.bools, lambda e: e[0] == "call" and e[1].endswith("if_node_could_grant_the_vote_request"), "")
+            b_is = pick(tb0.bools, lambda e: e[0] == "is" and vfo(e[1]), "")
+            if None in (q_rt, q_ct, b_up, b_cg, b_is) or len(tb0.quant) != 2 or len(tb0.bools) != 3:
+                ctx.bad("C01-d", "%s#table" % fkey(cl), "UNRECOGNISED-FORM: inputs %s %s" % ([sym_show(q) for q in tb0.quant], [sym_show(b) for b in tb0.bools]), "%s:%s" % (cl.file, cl.line))
+            else:
+                a = b_up[2]
+                okargs = len(a) == 4 and par(4)(a[0]) and par(5)(a[1]) and fld(req, "last_log_index")(a[2]) and fld(req, "last_log_term")(a[3])
+                ctx.check("C01-d", "%s#up-to-date-args" % fkey(cl), okargs, "up-to-date check compares (last_log_index, last_log_term) with the request's",
+                          "wrong arguments to the up-to-date check: %s" % sym_show(b_up), "%s:%s" % (cl.file, cl.line))
+
+                def spec3(w):
+                    return w.int(q_rt) >= w.int(q_ct) and w.b[b_up] and (not w.b[b_is] or w.b[b_cg])
+                run_table(ctx, "C01-d", "%s#table" % fkey(cl), paths, lambda p, w: w.truth(p.ret), spec3, "%s:%s" % (cl.file, cl.line),
+                          what="legal iff request.term >= current_term, log up to date, and (no vote or could_grant)")
